@@ -270,7 +270,6 @@ func Run(t *testing.T, tg Target) {
 							r.FailHere("wire|"+tg.Name+"|"+p.class, cas, "%s", p.msg)
 						}
 					}
-					r.Transition()
 					r.Outcome(fmt.Sprint(len(word), len(plan), at > 0, len(rn.problems)))
 					r.Sample(func() any { return cas })
 				}
